@@ -8,7 +8,7 @@ CONSTANTS
   DataVariants = {"plain"}
   Decoys = {"none", "both"}
   WFOnly = FALSE
-  MutKinds = {"none", "mtSame", "mtOther", "mtOtherNoDef", "mtNon", "mtLater"}
+  MutKinds = {"none", "mtSame", "mtOther", "mtOtherNoDef", "mtNon", "mtLater", "noRequest"}
 INIT GenInit
 NEXT GenNext
 INVARIANTS Emit Sound
